@@ -6,7 +6,7 @@ def run(ctx):
     parts = os.environ.get("VERIF_E2_PARTS")
     from lib import common
     ctx.known = [dict(k, property=ctx.pid) for k in common.load_known() if k["property"] in ("C01", "C05", "C10", "C14")]
-    ops_algebra.run_part(ctx, parts.split(",") if parts else None)
+    ops_algebra.run_part(ctx, parts.split(",") if parts else None, as_pid=os.environ.get("VERIF_E2_AS"))
 
 def replay(ctx, data):
     return ops_algebra.replay(ctx, data)
